@@ -534,6 +534,7 @@ OpR(e, pre, post) ==
     [] e.ev = "refresh" -> RefreshFull(pre, e.w)
     [] e.ev = "build_coinbase" -> BuildCoinbase(pre, e.w, [fees |-> e.fees, h |-> e.h, key |-> e.key])
     [] e.ev = "issue_invoice" -> IssueInvoice(pre, e.w, [sl |-> e.sl, dest |-> IF Has(e.args, "dest") THEN e.args.dest ELSE "", amt |-> e.args.amt])
+    [] e.ev = "scan" -> Scan(pre, e.w, IF e.start < 0 THEN 1 ELSE e.start, e.del)
     [] OTHER -> [steps |-> <<>>, res |-> "unmodelled"]
 TCrash ==
   /\ IsEv("crash")
@@ -553,7 +554,8 @@ TCrash ==
           /\ PendingOp(kind) =>
                 Check(rec.spendable \in {e.base_pre[w].spendable, e.base_post[w].spendable}, "C06", "RecoverByCancel", e,
                       e.mode \o ":" \o kind \o ":" \o e.point)
-          /\ (~PendingOp(kind)) =>
+          \* (a scan is a repair: what it corrects may have been counted as spendable wrongly before)
+          /\ (~PendingOp(kind) /\ kind # "scan") =>
                 Check(rec.spendable >= e.base_pre[w].spendable, "C06", "RecoverByCancel", e, e.mode \o ":" \o kind)
      \* C05: a cancel interrupted at any point (crash or failing write) has either not happened or is a
      \* complete rollback: an entry that became cancelled holds no reservation and awaits no output
